@@ -370,6 +370,9 @@ func loadChunk(l *Lexer, recordLen uint64) error {
 	}
 
 	// read compression and records length into buffer
+	if uint64(compressionLen) > uint64(len(l.buf)-8) {
+		return fmt.Errorf("unsupported compression: identifier of %d bytes", compressionLen)
+	}
 	thisReadLength, err := io.ReadFull(l.reader, l.buf[:compressionLen+8])
 	readLength += thisReadLength
 	if errors.Is(err, io.ErrUnexpectedEOF) || errors.Is(err, io.EOF) {
